@@ -362,6 +362,48 @@ def optimizer_oracle(case, net):
         if abs(sc - con["score"]) > 1e-9 or abs(htree.get_score() - con["score"]) > 1e-9:
             bad.append(({"site": "ReusableHyperOptimizer.score", "class": "stored-score"},
                         {"stored": con["score"], "rebuilt": sc, "returned": htree.get_score()}))
+    # a plain HyperOptimizer whose trials are post-processed (slicing / reconfiguration / annealing, alone and
+    # combined): the figures recorded for the winning trial are the figures of the tree rebuilt from the path it
+    # returns, sliced on the indices it reports
+    import random as _r
+    rr = _r.Random(case["seed"] ^ 0xC18)
+    if len(inputs) >= 4 and fac == 1 and not has_repeated(net):
+        post = {}
+        base_tree = ctg.ContractionTree.from_path(inputs, output, sd, ssa_path=pb.optimize_greedy(
+            inputs, output, sd, use_ssa=True))
+        tgt = max(1, base_tree.max_size() // rr.choice([1, 2, 4]))
+        combo = rr.choice(["reconf", "slicing", "slicing+reconf", "anneal+reconf", "slicing_reconf", "slicing_reconf+reconf",
+                           "anneal", "slicing+anneal+reconf"])
+        if "slicing_reconf" in combo.split("+"):
+            post["slicing_reconf_opts"] = {"target_size": tgt, "reconf_opts": {"subtree_size": 4, "maxiter": 3}}
+        if "slicing" in combo.split("+"):
+            post["slicing_opts"] = {"target_size": tgt}
+        if "reconf" in combo.split("+"):
+            post["reconf_opts"] = {"subtree_size": 4, "maxiter": 4}
+        if "anneal" in combo.split("+"):
+            post["simulated_annealing_opts"] = {"tsteps": 2, "numiter": 4}
+        out["hyper_post"] = combo
+        try:
+            ho = ctg.HyperOptimizer(methods=["greedy", "labels"], max_repeats=4, minimize=case.get("minimize", "flops"),
+                                    parallel=False, progbar=False, optlib="random", seed=case["seed"], **post)
+            ht = ho.search(inputs, output, sd)
+        except Exception as e:   # a search that cannot meet its slicing target etc.: nothing reported, nothing to judge
+            out["hyper_post_raises"] = type(e).__name__
+            ht = None
+        if ht is not None:
+            reb = ctg.ContractionTree.from_path(inputs, output, sd, path=ho.path)
+            for ix, si in ht.sliced_inds.items():
+                if si.project is None:
+                    reb.remove_ind_(ix)
+                else:
+                    reb.remove_ind_(ix, project=si.project)
+            st = reb.contract_stats()
+            rep = {k: ho.best.get(k) for k in ("flops", "write", "size")}
+            true = {k: st[k] for k in ("flops", "write", "size")}
+            if any(rep[k] is not None and int(rep[k]) != int(true[k]) for k in rep):
+                bad.append(({"site": "HyperOptimizer.best", "class": "recorded-costs-vs-returned-path", "post": combo},
+                            {"recorded": {k: (None if v is None else int(v)) for k, v in rep.items()},
+                             "tree_rebuilt_from_returned_path": {k: int(v) for k, v in true.items()}}))
     return bad, out
 
 
@@ -451,6 +493,8 @@ def check_case(ctx, drv, case):
         b2, opt_out = optimizer_oracle(case, net)
         bad += b2
         ctx.count("optimizer_runs")
+        if opt_out.get("hyper_post"):
+            ctx.count("hyper_post:" + opt_out["hyper_post"] + (":raises" if opt_out.get("hyper_post_raises") else ""))
     for sig, detail in bad:
         ctx.violation(sig, {"case": case, "detail": detail, "signature": sig},
                       "simulator / reported cost differs from the tree: %s %s" % (sig, str(detail)[:200]))
